@@ -332,7 +332,7 @@ func Decompress(codec int, body []byte, uncomp int) ([]byte, error) {
 		if err != nil {
 			return nil, err
 		}
-		zr.Multistream(false)
+		// RFC 1952: a gzip stream is a series of members; the page is all of them (trailing bytes that are not a member are an error)
 		out, err := io.ReadAll(zr)
 		if err != nil {
 			return nil, err
